@@ -88,6 +88,9 @@ Leaves(p) == IF IsRating(p) THEN {p}
              ELSE IF p.t \in {"list", "tuple"} THEN UNION {Leaves(p.items[k]) : k \in 1..Len(p.items)}
              ELSE {}
 
+\* leaves as a map from allocation number
+LeafMap(L) == [r \in {x.ref : x \in L} |-> CHOOSE x \in L : x.ref = r]
+
 \* numeric prior values of well-formed teams: <<team, ..>>, team = <<[mu, sigma], ..>>
 PMatV(f) == f \o <<>>
 TeamsVals(teams) == PMatV([i \in 1..Len(teams.items) |->
